@@ -56,6 +56,7 @@ OPS_REQUIRED = ["sort_tree", "get_subtree", "to_subtree", "cut_tree", "redirect_
 REQUIRED = ["contract_evals_" + o for o in OPS_REQUIRED] + [
     "compositions_compared_with_their_members", "steps_compared_under_custom_column_names",
     "big_branched_trees", "probe_repeat_after_output_poison",
+    "roundtrip_steps_through_a_file_with_non_ascii_remark",
     "steps_executed", "probe_output_poison", "probe_input_poison", "roundtrip_steps",
     "identity_transform_steps", "same_tree_in_two_argument_positions", "size_sweep_cases",
     "pipelines_starting_from_a_branch_tree", "deep_pruning_cases",
@@ -268,6 +269,26 @@ def draw_op(rng, t, allow_grow=True, force=None):
 
         return f"Transforms(RotateZ, CutByFurcationOrder({k}), TranslateOrigin)", composed, [], None
     if name == "roundtrip":
+        if int(rng.integers(0, 2)):
+            def via_file(a):
+                # through a file, the tree carrying a remark that is not ASCII ("units: µm")
+                import os
+                import tempfile
+
+                d_ = tempfile.mkdtemp(prefix="rv-c03-")
+                try:
+                    b = a.copy()
+                    b.comments = list(b.comments) + ["units: \u00b5m"]
+                    f_ = os.path.join(d_, "t.swc")
+                    b.to_swc(f_)
+                    ROUNDTRIP_FILES[0] += 1
+                    return Tree.from_swc(f_)
+                finally:
+                    import shutil
+
+                    shutil.rmtree(d_, ignore_errors=True)
+
+            return "swc round trip through a file", via_file, [], "roundtrip"
         return "swc round trip", lambda a: Tree.from_swc(io.StringIO(a.to_swc())), [], "roundtrip"
     if name == "identity":
         which = int(rng.integers(0, 4))
@@ -279,6 +300,7 @@ def draw_op(rng, t, allow_grow=True, force=None):
 
 
 COMPOSED, COMPOSED_BAD = [0], []
+ROUNDTRIP_FILES = [0]
 
 
 def fingerprint_cols(t):
@@ -516,6 +538,7 @@ def run(ctx):
     for name, v in rec.evals.items():
         ctx.count("contract_evals_" + name, v)
     ctx.count("compositions_compared_with_their_members", COMPOSED[0])
+    ctx.count("roundtrip_steps_through_a_file_with_non_ascii_remark", ROUNDTRIP_FILES[0])
     for msg in COMPOSED_BAD[:3]:
         ctx.violation("composition-differs", msg, {"note": "Transforms(...) step of a pipeline"})
 
